@@ -105,10 +105,12 @@ func (a *Args) Iter() iter.Seq2[string, ipld.Node] {
 
 // ToIPLD wraps an instance of an Args with an ipld.Node.
 func (a *Args) ToIPLD() (ipld.Node, error) {
-	sort.Strings(a.Keys)
+	// sort a copy: ToIPLD is a read-only operation (it is reachable from
+	// invocation.Token.ExecutionAllowed) and must not reorder the shared Keys
+	keys := a.sortedKeys()
 
-	return qp.BuildMap(basicnode.Prototype.Any, int64(len(a.Keys)), func(ma datamodel.MapAssembler) {
-		for _, key := range a.Keys {
+	return qp.BuildMap(basicnode.Prototype.Any, int64(len(keys)), func(ma datamodel.MapAssembler) {
+		for _, key := range keys {
 			qp.MapEntry(ma, key, qp.Node(a.Values[key]))
 		}
 	})
@@ -131,12 +133,12 @@ func (a *Args) Equals(other *Args) bool {
 }
 
 func (a *Args) String() string {
-	sort.Strings(a.Keys)
+	keys := a.sortedKeys()
 
 	buf := strings.Builder{}
 	buf.WriteString("{")
 
-	for _, key := range a.Keys {
+	for _, key := range keys {
 		buf.WriteString("\n\t")
 		buf.WriteString(key)
 		buf.WriteString(": ")
@@ -150,6 +152,15 @@ func (a *Args) String() string {
 	buf.WriteString("}")
 
 	return buf.String()
+}
+
+// sortedKeys returns a sorted copy of the keys, leaving Keys (the insertion
+// order, shared by every reader of the Args) untouched.
+func (a *Args) sortedKeys() []string {
+	keys := make([]string, len(a.Keys))
+	copy(keys, a.Keys)
+	sort.Strings(keys)
+	return keys
 }
 
 // ReadOnly returns a read-only version of Args.
